@@ -41,11 +41,11 @@ theorem mkInRow_ok (cfg : Config) (asset : String) (acct : String → String →
   simp only [bind_eq_ok, ensure_ok, optAll_ok, known_ok, ofOpt_ok, needNum_ok, pure, Except.pure, Except.ok.injEq] at h
   obtain ⟨_, _, price, hprice, cin, hcin, cfee, hcfee, fnf, hfnf, fwf, hfwf, ffee, hffee, a, ha, _, hka, ts, hts, typS, htypS, typ, htyp,
     pv, hpv, _, hp0, _, hnotes, ex, hex, _, hkex, ho, hho, _, hkho, cv, hcv, _, hpos, _, hcf0, _, hff0, _, hpne, _, hboth, _, hfnf0, _, hfwf0,
-    _, htypok, _, hasset, hp⟩ := h
+    _, htypok, _, hasset, _, hsplit, hp⟩ := h
   subst hp
-  simp only [decide_eq_true_eq, Bool.or_eq_true] at *
+  simp only [decide_eq_true_eq, Bool.or_eq_true] at hka hkex hkho hp0 hpos hcf0 hff0 hpne htypok hasset
   subst hasset
-  refine ⟨hka, ?_, hkex, hkho, tsArg_ok hts, ?_, by omega, ?_, hcf0, by first | rfl | trivial⟩
+  refine ⟨hka, ?_, hkex, hkho, tsArg_ok hts, ?_, (by show (0 : Int) < pv; omega), ?_, hcf0, by first | rfl | trivial⟩
   · obtain ⟨t, ht⟩ := strArg_ok ha; exact ⟨t, ht⟩
   · rcases htypok with ((h1 | h1) | h1) | h1
     · exact Or.inl h1
